@@ -82,12 +82,12 @@ func vf36Server() *Server {
 
 // "exch-fail" stands for one of vf36FailModes, chosen once per execution.
 var vf36Calls = []string{"usmall", "ularge", "prod", "exch-ptr", "ularge-ptr", "exch-fail"}
-var vf36FailModes = []string{"exch-err", "exch-panic", "exch-noemit", "exch-cast"}
+var vf36FailModes = []string{"exch-err", "exch-panic", "exch-noemit", "exch-cast", "uptr-rows0", "uptr-rows2"}
 
 var vf36Utf8In = arrow.NewSchema([]arrow.Field{{Name: "x", Type: arrow.BinaryTypes.String}}, nil)
 
 func vf36IsFail(call string) bool {
-	for _, m := range vf36FailModes {
+	for _, m := range vf36FailModes[:4] {
 		if m == call {
 			return true
 		}
@@ -258,8 +258,18 @@ func (c *vf36Client) next() []byte {
 		chunk = vfXReq(call, x, adv...)
 		c.reqSent++
 		c.ci++
-	case "ularge-ptr":
-		params, isPtr := c.toPointer(vfI64Batch("x", x))
+	case "ularge-ptr", "uptr-rows0", "uptr-rows2":
+		// uptr-rowsN: a MALFORMED request only the shm path can carry past
+		// ReadRequest — the parked parameter batch has N != 1 rows. The server
+		// still consumes (copies out) the slot, so it still owns its release.
+		pb := vfI64Batch("x", x)
+		switch call {
+		case "uptr-rows0":
+			pb = vfI64Batch("x")
+		case "uptr-rows2":
+			pb = vfI64Batch("x", x, x+1)
+		}
+		params, isPtr := c.toPointer(pb)
 		kv := append([]string{}, adv...)
 		if isPtr {
 			// vfRequest replaces the batch metadata: carry the pointer keys over
@@ -569,6 +579,20 @@ func TestVerif_C36(t *testing.T) {
 			}
 			want := plain.perCall[i]
 			same := i < ses.nStreams && strings.Join(got, "\n") == strings.Join(want, "\n") && ses.schemas[i] == plain.schemas[i]
+			if strings.HasPrefix(calls[i], "uptr-rows") {
+				// malformed request: the statement does not pin WHICH error; the
+				// inline form is refused by ReadRequest, the shm-resident form by
+				// a later stage. Both sessions must answer with errors only.
+				onlyErr := func(bs []string) bool {
+					for _, b := range bs {
+						if !strings.HasPrefix(b, "error|") {
+							return false
+						}
+					}
+					return len(bs) > 0
+				}
+				same = i < ses.nStreams && onlyErr(got) && onlyErr(want)
+			}
 			if advert == "never" && ptrCall {
 				// a pointer batch on a connection that never advertised a
 				// segment: the answer must be an error (and the session goes on)
